@@ -151,11 +151,15 @@ type c08Spec struct {
 	crashNth   []int
 	// flaps: reconnect of ONE channel (both links re-created from disk, the
 	// switches and their mailboxes / circuit maps stay up).
-	flapPred []*c08Pred
-	flapCh   []string
-	flapWait []time.Duration
-	restartT []time.Duration
-	tamper   bool // flip a bit of the first downstream update_fulfill Bob receives
+	// stall: a cut WITHOUT restart (the peer withholds its messages on that
+	// channel from this point on); a later flap of the channel heals it.
+	stallPred  *c08Pred
+	stallScope string
+	flapPred   []*c08Pred
+	flapCh     []string
+	flapWait   []time.Duration
+	restartT   []time.Duration
+	tamper     bool // flip a bit of the first downstream update_fulfill Bob receives
 }
 
 // ---------------------------------------------------------------------------
@@ -848,6 +852,10 @@ func (r *c08Run) armCut() {
 		r.predArmed = r.spec.cutPred[r.cutPlan]
 		r.cutScope = r.spec.cutScope[r.cutPlan]
 	}
+	if r.spec.stallPred != nil && r.epoch == 0 && r.predArmed == nil && r.cutArmed < 0 {
+		r.predArmed = r.spec.stallPred
+		r.cutScope = r.spec.stallScope
+	}
 	if r.cutPlan < len(r.spec.cutAt) && r.spec.cutAt[r.cutPlan] == -3 && r.crashDB != nil {
 		r.crashDB.arm(r.spec.crashLabel[r.cutPlan], r.spec.crashNth[r.cutPlan])
 	}
@@ -1379,6 +1387,22 @@ func (r *c08Run) run() (status string) {
 			}
 		}
 	}
+	if spec.stallPred != nil {
+		// a stalled connection must always heal (the peer comes back), even if
+		// the planned flap never triggered
+		for _, ch := range []string{"AB", "BC"} {
+			r.mu.Lock()
+			cut := r.cut[ch]
+			r.mu.Unlock()
+			if cut {
+				time.Sleep(300 * time.Millisecond)
+				if err := r.flap(ch); err != nil {
+					r.emit("note heal flap: %s", c08clean(err.Error()))
+					return "restart_error"
+				}
+			}
+		}
+	}
 	q := r.waitQuiescent(slow)
 	for _, p := range spec.pays {
 		res := r.resultOf(p)
@@ -1539,6 +1563,30 @@ func c08Script(seed int64, idx int) *c08Spec {
 		s.flapPred = []*c08Pred{{at: "db", t: "fwdfilter", nth: 3}}
 		s.flapCh = []string{second}
 		s.flapWait = []time.Duration{0}
+	case 12, 13:
+		// the upstream peer withholds the revoke_and_ack for Bob's 2nd commit_sig
+		// (Bob's incoming link has no revocation window left), the response of
+		// the first payment (settle: case 12, fail: case 13) reaches the incoming
+		// link, which can not sign it; then the upstream connection flaps with
+		// the switch staying up (mailbox ResetPackets) and the peer answers again.
+		k := c08KHoldSettle
+		if sc == 13 {
+			k = c08KHoldCancel
+		}
+		p0 := mk(dir, k, amt)
+		p0.resolve = 450 * time.Millisecond
+		p1 := mk(dir, c08KValid, c08GenAmt(rng, 3000000))
+		p1.n, p1.pid, p1.gap = 1, 2, 200*time.Millisecond
+		s.pays = []*c08Pay{p0, p1}
+		s.stallPred = &c08Pred{at: "bob", ch: first, t: "rev", nth: 2, before: true}
+		s.stallScope = first
+		fl := "ful"
+		if sc == 13 {
+			fl = "fail"
+		}
+		s.flapPred = []*c08Pred{{at: "bob", ch: second, t: fl, nth: 1}}
+		s.flapCh = []string{first}
+		s.flapWait = []time.Duration{time.Duration(120+rng.Intn(100)) * time.Millisecond}
 	default:
 		// a forwarding package whose FIRST add is already acked while a LATER
 		// add has only a half-open circuit at the crash: Z exhausts Bob's
@@ -1566,7 +1614,7 @@ func c08Script(seed int64, idx int) *c08Spec {
 	return s
 }
 
-const c08NumScripts = 24
+const c08NumScripts = 28
 
 func c08GenSpec(seed int64, idx int, tier string) *c08Spec {
 	if idx < c08NumScripts {
@@ -1580,7 +1628,7 @@ func c08GenSpec(seed int64, idx int, tier string) *c08Spec {
 	if rng.Intn(2) == 0 {
 		s.capSat2 = caps[rng.Intn(len(caps))]
 	}
-	kinds := []string{"plain", "delay", "crash", "cut", "cut", "crash", "restart", "flap", "tamper", "crash", "flap", "cut"}
+	kinds := []string{"plain", "delay", "crash", "cut", "stall", "crash", "restart", "flap", "tamper", "crash", "flap", "cut", "stall"}
 	s.kind = kinds[idx%len(kinds)]
 	np := 6 + rng.Intn(9)
 	if tier == "thorough" {
@@ -1645,6 +1693,20 @@ func c08GenSpec(seed int64, idx int, tier string) *c08Spec {
 			s.flapCh = append(s.flapCh, ch)
 			s.flapWait = append(s.flapWait, time.Duration(rng.Intn(4000))*time.Microsecond)
 		}
+	case "stall":
+		// a peer stops answering on one channel at its n-th revoke_and_ack; later
+		// (when the m-th response from the OTHER channel reaches Bob) the stalled
+		// connection flaps and the peer answers again.
+		ch := []string{"AB", "BC"}[rng.Intn(2)]
+		oth := "BC"
+		if ch == "BC" {
+			oth = "AB"
+		}
+		s.stallPred = &c08Pred{at: "bob", ch: ch, t: "rev", nth: 2 + rng.Intn(np), before: true}
+		s.stallScope = ch
+		s.flapPred = []*c08Pred{{at: "bob", ch: oth, t: []string{"ful", "fail"}[rng.Intn(2)], nth: 1 + rng.Intn(3)}}
+		s.flapCh = []string{ch}
+		s.flapWait = []time.Duration{time.Duration(60+rng.Intn(250)) * time.Millisecond}
 	case "tamper":
 		s.tamper = true
 		np = 1 + rng.Intn(3)
